@@ -819,6 +819,75 @@ func inflight(r *vh.Run, i int) {
 	}
 }
 
+// brokenMonolithic: family 6 - a monolithic POST whose body breaks off (the connection died in the middle).  The
+// session the store opened for it was never made known to anybody: it ceases to exist with the refusal - it does not
+// count against the bound and leaves no file - and the client's own session is untouched.
+func brokenMonolithic(r *vh.Run, i int) {
+	kind := []vh.StoreKind{vh.Mem, vh.Dir}[i%2]
+	root := ""
+	if kind == vh.Dir {
+		root = r.TempDir("c08b")
+		defer vh.RemoveAll(root)
+	}
+	c := vh.Conf(kind, root, vh.Neutral)
+	max := []int{0, 2, 3}[(i/2)%3]
+	if max > 0 {
+		c.Storage.GC.RepoUploadMax = max
+	}
+	srv := vh.New(c)
+	defer srv.Close()
+	wit := map[string]any{"trial": i, "store": kind.String(), "repo_upload_max": max}
+	rs := vh.Do(srv, vh.Req{Method: "POST", URL: "/v2/m/blobs/uploads/"})
+	loc := rs.H.Get("Location")
+	if rs.Status != 202 || loc == "" {
+		return
+	}
+	path, id := pathOf(loc), idOf(loc)
+	if ps := vh.Do(srv, vh.Req{Method: "PATCH", URL: loc, Body: []byte("sixsix")}); ps.Status != 202 {
+		return
+	}
+	nbroken := 2 + i%3
+	for k := 0; k < nbroken; k++ {
+		b := []byte(fmt.Sprintf("monolithic content that never arrives completely %d %d", i, k))
+		bs := vh.Do(srv, vh.Req{Method: "POST", URL: "/v2/m/blobs/uploads/?digest=" + vh.DigestOf("sha256", b), Body: b[:10+k], Short: len(b) - 10 - k, UnknownLen: k%2 == 1})
+		if bs.Status < 400 || bs.Status >= 500 {
+			wit["status"] = bs.Status
+			r.Violation("broken-monolithic:status", fmt.Sprintf("a monolithic POST whose body broke off was answered %d", bs.Status), wit)
+			return
+		}
+		if g := vh.Do(srv, vh.Req{Method: "HEAD", URL: "/v2/m/blobs/" + vh.DigestOf("sha256", b)}); g.Status == 200 {
+			r.Violation("partial-content-became-blob:broken-monolithic", "the declared digest of a broken-off monolithic POST is served", wit)
+			return
+		}
+	}
+	r.Count("broken_monolithic_trials", 1)
+	ids, _ := srv.VerifUploads(context.Background(), "m")
+	wit["open_sessions"] = len(ids)
+	if len(ids) != 1 || ids[0] != id {
+		r.Violation("conservation:sessions:broken-monolithic", fmt.Sprintf("%s store: one session was opened by the client, %d monolithic POSTs broke off and were refused; the store now holds %d sessions (the client's own among them: %v)", kind, nbroken, len(ids), len(ids) > 0 && contains(ids, id)), wit)
+		return
+	}
+	if g := vh.Do(srv, vh.Req{Method: "GET", URL: path}); g.Status != 204 || g.H.Get("Range") != "0-5" {
+		r.Violation("session-altered:broken-monolithic", fmt.Sprintf("the client's session answers %d Range %q after the broken-off POSTs", g.Status, g.H.Get("Range")), wit)
+		return
+	}
+	if kind == vh.Dir {
+		ents, _ := os.ReadDir(root + "/m/_uploads")
+		if len(ents) != 1 {
+			r.Violation("conservation:files:broken-monolithic", fmt.Sprintf("directory store: %d files under _uploads, one session is open", len(ents)), wit)
+		}
+	}
+}
+
+func contains(l []string, x string) bool {
+	for _, y := range l {
+		if y == x {
+			return true
+		}
+	}
+	return false
+}
+
 // overlap: family 5 - two PATCH requests of one session in flight together, both declaring the same start.  The first
 // has sent its headers (its start was compared with the bytes received: 0 of 0, fine) and holds its body back; the
 // second delivers 4 bytes and is acknowledged.  When the body of the first arrives, its declared start (0) differs
@@ -884,6 +953,9 @@ func main() {
 	})
 	no := r.N(12, 200)
 	vh.Parallel(no, 4, func(i int) { overlap(r, i) })
+	nbm := r.N(18, 360)
+	vh.Parallel(nbm, 8, func(i int) { brokenMonolithic(r, i) })
+	r.Require("broken_monolithic_trials", int64(nbm*3/4))
 	r.Require("inflight_trials", int64(nf/2))
 	r.Count("cases", np+nb+ne+nf)
 	r.Require("sessions", int64(np*3))
@@ -892,5 +964,5 @@ func main() {
 	r.Require("evictions_observed", 20)
 	r.Require("expiries_observed", 10)
 	r.RequireDistinct("patch_classes", 20)
-	r.Finish("(1) protocol sequences of 40-80 requests over <=5 interleaved sessions in repositories a and a/b: PATCH with Content-Range right/none/stale/future/malformed x state right/stale/future/malformed/absent, empty chunks, foreign-repository use, cancel, PUT right/wrong/prefix digest/stale state, reuse of finished ids; status query of every open session, conservation (model == hook listing == _uploads files) and prefix-digest probes after every request; (2) RepoUploadMax in {1,2,3,10} with N+k sessions, expiry enabled or disabled: bound and LRU; (3) expiry with 40/80 ms grace, one-sided timing; (4) sessions ended while the completing PUT is in flight; (5) two PATCH requests of one session in flight with the same start. A case is one sequence/trial, distinct = (range class, state class) pairs exercised", "cases", "patch_classes")
+	r.Finish("(1) protocol sequences of 40-80 requests over <=5 interleaved sessions in repositories a and a/b: PATCH with Content-Range right/none/stale/future/malformed x state right/stale/future/malformed/absent, empty chunks, foreign-repository use, cancel, PUT right/wrong/prefix digest/stale state, reuse of finished ids; status query of every open session, conservation (model == hook listing == _uploads files) and prefix-digest probes after every request; (2) RepoUploadMax in {1,2,3,10} with N+k sessions, expiry enabled or disabled: bound and LRU; (3) expiry with 40/80 ms grace, one-sided timing; (4) sessions ended while the completing PUT is in flight; (5) two PATCH requests of one session in flight with the same start; (6) monolithic POSTs whose body breaks off next to a client session (bound 0/2/3). A case is one sequence/trial, distinct = (range class, state class) pairs exercised", "cases", "patch_classes")
 }
